@@ -39,7 +39,8 @@ def run(run):
         declared = len(F.SIG[name][0]) if name in F.SIG else 1
         for n in range(0, declared + 3):
             lists = [ANY] * n
-            if n >= 3: lists = [ANY] * 2 + [ANY[:4] + [ANY[9]]] * (n - 2) if (name in ('merge', 'not_null')) else [ANY[:3]] * n      # beyond the declared arity only the count matters (variadics keep type variety)
+            if n >= 3 and quick: lists = [ANY] * 2 + [ANY[:4] + [ANY[9]]] * (n - 2) if (name in ('merge', 'not_null')) else [ANY[:3]] * n      # beyond the declared arity only the count matters (variadics keep type variety)
+            elif n >= 3: lists = [ANY] * 3 + [ANY[:4] + [ANY[9]]] * (n - 3) if (name in ('merge', 'not_null', 'sort_by', 'max_by', 'min_by', 'map', 'join', 'contains', 'starts_with', 'ends_with')) else [ANY[:6]] * n
             if n == 0: lists = []
             jobs.append(('sig', name, lists, dl))
     # expression->number|string: the keys an expression reference yields must be uniformly numbers or uniformly strings (first key fixes the type)
